@@ -703,8 +703,8 @@ def fuzz_build(cfg, debug_assertions=False):
         open(ct, "w").write(want)
     tdir = os.path.join(common.BUILD, "fuzz-%s%s" % (cfg.replace("+", "_"), "-dbg" if debug_assertions else ""))
     cmd = ["cargo", "+nightly", "fuzz", "build", "bytes", "--target-dir", tdir, "--no-default-features", "--features", common.FEATURES[cfg]]
-    if debug_assertions:
-        cmd.append("-a")
+    if not debug_assertions:
+        cmd.append("-O")  # cargo-fuzz's default keeps debug assertions (and the standard library's unsafe-precondition checks) on
     env = common.base_env()
     p = subprocess.run(cmd, cwd=FUZZER, env=env, stdout=subprocess.PIPE, stderr=subprocess.STDOUT, text=True)
     if p.returncode != 0:
@@ -727,7 +727,7 @@ def fuzz_session(prop, sd, workdir, seconds, cfg, violations, inconclusive, debu
     shutil.rmtree(corpus, ignore_errors=True)
     shutil.copytree(os.path.join(FUZZER, "seeds"), corpus)
     os.makedirs(art, exist_ok=True)
-    cmd = ["cargo", "+nightly", "fuzz", "run", "bytes", "--target-dir", tdir, "--no-default-features", "--features", common.FEATURES[cfg]] + (["-a"] if debug_assertions else []) + [
+    cmd = ["cargo", "+nightly", "fuzz", "run", "bytes", "--target-dir", tdir, "--no-default-features", "--features", common.FEATURES[cfg]] + ([] if debug_assertions else ["-O"]) + [
         corpus, "--", "-artifact_prefix=" + art, "-max_total_time=%d" % seconds, "-timeout=10", "-fork=%d" % common.NCPU, "-max_len=1600", "-use_value_profile=1", "-seed=%d" % (sd + 1), "-rss_limit_mb=3000"]
     env = common.base_env()
     env["ASAN_OPTIONS"] = "detect_leaks=0:abort_on_error=1:halt_on_error=1"
@@ -756,11 +756,12 @@ def fuzz_session(prop, sd, workdir, seconds, cfg, violations, inconclusive, debu
         r = subprocess.run(cmd[:cmd.index(corpus)] + [a, "--", "-timeout=10", "-rss_limit_mb=3000"], cwd=FUZZER, env=env, stdout=subprocess.PIPE, stderr=subprocess.STDOUT, text=True, errors="replace", timeout=300)
         rep = r.stdout
         m = re.search(r"ERROR: AddressSanitizer: ([^\n]*)", rep)
-        kind = ("AddressSanitizer: " + m.group(1).strip()[:100]) if m else ("deadly signal" if "deadly signal" in rep else None)
+        nu = re.search(r"NON-UNWINDING PANIC: ([^\n]*\n?[^\n]*)", rep)
+        kind = ("AddressSanitizer: " + m.group(1).strip()[:100]) if m else (("abort: " + " ".join(nu.group(1).split())[:160]) if nu else ("deadly signal" if "deadly signal" in rep else None))
         if r.returncode == 0 or kind is None:
             inconclusive.append("fuzz session (%s): unit %s ended a worker but does not reproduce alone (rc=%s)" % (cfg, os.path.basename(a), r.returncode))
             continue
-        frame = common.first_repo_frame(rep[m.start():] if m else rep)
+        frame = common.first_repo_frame(rep[m.start():] if m else (nu.group(0) if nu and common.first_repo_frame(nu.group(0)) else rep))
         sig = "fuzz:%s:%s" % (kind.split(" on ")[0], frame)
         if sig in seen:
             continue
@@ -803,6 +804,8 @@ def p_c08(prop, tier):
         jobs.append(Job("eng_mem", c, p, instr="asan", shards=n, budget=B(asan_budget)))
     for (c, p, n) in vg:
         jobs.append(Job("eng_mem", c, p, instr="valgrind", shards=n, budget=B(150), timeout=3000))
+    if os.environ.get("VERIF_C08_PARTS") == "fuzz":
+        jobs = []  # self-test switch (tools/): only the coverage-guided session; the run then ends inconclusive unless it finds something
     rule = ("parse_float::<f32|f64> on arbitrary bytes: every byte value, lengths 0..900 around the 19/20, 114 and 769 cut-offs, all-0xFF, all-0x00, '/' and ':' (neighbours of the digits), bytes >= 0x3a (garbage 'digits' up to 207 without subtraction overflow), "
             "digits with sprinkled garbage, leading zeros, any exponent incl. i32::MIN/MAX; every third case is a valid input aimed at an unchecked-index site (fast-path exponents +-22/23/37/38 and +-10/11/17/18, disguised shifts 0..15, 19-digit chunks, "
             "769-digit subnormals with the largest 5^k, long left shifts, every pow() remainder). No oracle runs: the judges are Miri (Stacked Borrows and Tree Borrows; rel and chk profiles), AddressSanitizer and (thorough) valgrind memcheck; "
@@ -844,7 +847,8 @@ def p_c08(prop, tier):
         # coverage-guided arbitrary bytes under AddressSanitizer (libFuzzer): finds the narrow byte / length / exponent
         # coincidences that a fixed generator does not aim at
         fz = []
-        plan = [("default", False, 25)] if tier == "quick" else [("default", False, 420), ("alloc", False, 180), ("compact", False, 180), ("nostd+compact", False, 120), ("default", True, 120)]
+        # (configuration, debug assertions + unsafe-precondition checks on?, seconds)
+        plan = [("default", False, 15), ("default", True, 12)] if tier == "quick" else [("default", False, 300), ("default", True, 240), ("alloc", False, 150), ("alloc", True, 90), ("compact", False, 150), ("nostd+compact", False, 120)]
         for (c, dbg, secs) in plan:
             fz.append(fuzz_session(prop, sd, workdir, max(10, int(secs * common.budget_scale())), c, violations, inconclusive, dbg))
         cov["coverage_guided_fuzzing"] = fz
@@ -1093,6 +1097,8 @@ def setup():
                 ok = False
                 print(err)
     _, ferr = fuzz_build("default")
+    if not ferr:
+        _, ferr = fuzz_build("default", True)
     if ferr:
         ok = False
         print("fuzz target does not build:\n" + ferr)
